@@ -17,6 +17,7 @@ from ..core.cfg import CFG, solve_forward
 from ..core.effects import root_name, store_targets
 from ..core.report import AnalysisError
 from ..expr.lift import Lifter, straight_paths, equal
+from ..core.template import find, has
 
 LEVEL = 'other'
 SURV = 'emg3d/surveys.py'
@@ -110,15 +111,25 @@ def rule_N1(ctx):
     ctx.need(ok_paths >= 1, 'misfit: no path computing weights and misfit')
     # layered twins
     mp = ctx.repo.mod(MP)
-    for fname, names in (('layered', ('wgt', 'res')),
-                         ('_fd_gradient', ('weight', 'residual'))):
+    for fname in ('layered', '_fd_gradient'):
         fn = mp.func(fname)
-        cands = [n for n in ast.walk(fn) if isinstance(n, ast.Assign) and
-                 'misfit' in ast.unparse(n.targets[0]) and
-                 'np.sum' in ast.unparse(n.value)]
+        cands = find('_m_ = np.sum(_w_ * (_r_.conj() * _r_)).real / __', fn) \
+            or find('_m_ = np.sum(__).real / __', fn) or \
+            find('_m_ = np.sum(__).real', fn)
         ctx.anchor(len(cands) == 1, f'misfit expression in {fname}')
+        bb = cands[0][1]
+        cands = [cands[0][0]]
         wv, rv = sp.Symbol('w', positive=True), sp.Symbol('r')
-        lf3 = Lifter({names[0]: wv, names[1]: rv}, {}, mp.rel, strict=True)
+        env_ = {}
+        if '_w_' in bb:
+            env_ = {bb['_w_']: wv, bb['_r_']: rv}
+        else:
+            nm = sorted({x.id for x in ast.walk(cands[0].value)
+                         if isinstance(x, ast.Name)} - {'np'})
+            env_ = {n_: (rv if sum(1 for x in ast.walk(cands[0].value)
+                                   if isinstance(x, ast.Name) and x.id == n_)
+                         > 1 else wv) for n_ in nm}
+        lf3 = Lifter(env_, {}, mp.rel, strict=True)
         val = lf3.lift(cands[0].value)
         want = sp.re(wv * sp.conjugate(rv) * rv) / 2
         ctx.check('C13.N1.misfit', f'_multiprocessing.{fname} misfit twin',
@@ -126,14 +137,17 @@ def rule_N1(ctx):
                   'from the Simulation.misfit formula',
                   ctx.where(mp, cands[0]), sample={'lifted': str(val)})
     fd = mp.func('_fd_gradient')
-    rs = [n for n in ast.walk(fd) if isinstance(n, ast.Assign) and
-          ast.unparse(n.targets[0]) == 'residual']
-    ctx.anchor(len(rs) == 1, 'residual in _fd_gradient')
     ps = au.params(fd)
-    ctx.check('C13.N1.misfit', '_fd_gradient residual',
-              ast.unparse(rs[0].value).replace(' ', '') ==
-              f'response-{ps[2]}', 'finite-difference residual is not '
-              'response - data', ctx.where(mp, rs[0]))
+    mf_ = find('_m_ = np.sum(_w_ * (_r_.conj() * _r_)).real / __', fd)
+    ok = False
+    if mf_:
+        rname = mf_[0][1]['_r_']
+        rs = find(f'{rname} = _resp_ - {ps[2]}', fd)
+        ok = len(rs) == 1 and has(
+            f'{rs[0][1]["_resp_"]} = _empymod_fwd(__, __, __)', fd)
+    ctx.check('C13.N1.misfit', '_fd_gradient residual', ok,
+              'finite-difference residual is not response - data',
+              ctx.where(mp, fd))
     ctx.floor('C13.N1.misfit', 5)
 
 
@@ -348,36 +362,35 @@ def rule_N3(ctx):
 def rule_N4(ctx):
     sm = ctx.repo.mod(SURV)
     fn = sm.method('Survey', 'select')
+    sv = find('_s_ = self.to_dict()', fn)
+    lp = [n for n in fn.body if isinstance(n, ast.For) and
+          find('_s_[\'data\'][_k_] = self.data[_k_].sel(**_sel_)', n)]
+    ctx.anchor(len(sv) == 1 and len(lp) == 1, 'survey dict and data loop in '
+               'select()')
+    S = sv[0][1]['_s_']
+    m = find(f"{S}['data'][_k_] = self.data[_k_].sel(**_sel_)", lp[0])
+    SEL = m[0][1]['_sel_']
     pairs = {'sources': 'src', 'receivers': 'rec', 'frequencies': 'freq'}
     for par, dim in pairs.items():
         ifs = [n for n in fn.body if isinstance(n, ast.If) and
                ast.unparse(n.test) == f'{par} is not None']
         ctx.anchor(len(ifs) == 1, f'`if {par} is not None` in select()')
-        body = ifs[0].body
-        sel = [s for s in body if isinstance(s, ast.Assign) and ast.unparse(
-            s.targets[0]).replace('"', "'") == f"selection['{dim}']"]
-        flt = [s for s in body if isinstance(s, ast.Assign) and ast.unparse(
-            s.targets[0]).replace('"', "'") == f"survey['{par}']"]
-        ok = len(sel) == 1 and ast.unparse(sel[0].value) == par and \
-            len(flt) == 1 and isinstance(flt[0].value, ast.DictComp) and \
-            ast.unparse(flt[0].value.generators[0].iter) == par and \
-            f"survey['{par}']" in ast.unparse(flt[0].value.value).replace(
-                '"', "'")
+        ok = has(f"{SEL}['{dim}'] = {par}", ifs[0]) and has(
+            f"{S}['{par}'] = {{_k_: {S}['{par}'][_k_] for _k_ in {par}}}",
+            ifs[0])
         ctx.check('C13.N4.select', f'select: {par} <-> {dim}', ok,
                   f'the list filtering `{par}` and the list selecting '
                   f'dimension `{dim}` of the data are not the same',
                   ctx.where(sm, ifs[0]), sample={'param': par, 'dim': dim})
-    loops = [n for n in fn.body if isinstance(n, ast.For) and
-             "survey['data']" in ast.unparse(n.iter).replace('"', "'")]
-    ctx.anchor(len(loops) == 1, 'loop over data variables in select()')
-    st = [s for s in loops[0].body if isinstance(s, ast.Assign)]
-    ok = bool(st) and ast.unparse(st[0].value).replace(' ', '') == \
-        f'self.data[{loops[0].target.id}].sel(**selection)' and \
-        ast.unparse(loops[0].iter).replace('"', "'") == \
-        "survey['data'].keys()"
+    ok = has(f"{S}['data'].keys()", lp[0].iter) and \
+        m[0][1]['_k_'] == ast.unparse(lp[0].target)
     ctx.check('C13.N4.select', 'select: every data variable .sel(**selection)',
               ok, 'not every data variable is cut with the one selection',
-              ctx.where(sm, loops[0]))
+              ctx.where(sm, lp[0]))
+    ctx.check('C13.N4.select', 'select: reduced survey from the cut dict',
+              has(f'_r_ = Survey.from_dict({S})', fn),
+              'the reduced survey is not built from the cut dictionary',
+              ctx.where(sm, fn))
     # copy is deep
     cp = sm.method('Survey', 'copy')
     ret = [n for n in ast.walk(cp) if isinstance(n, ast.Return)]
@@ -388,10 +401,12 @@ def rule_N4(ctx):
         f'copy() is `{txt}` (not a deep copy through to_dict)',
         ctx.where(sm, cp))
     td = sm.method('Survey', 'to_dict')
+    tps = au.params(td)
     deep = [n for n in ast.walk(td) if isinstance(n, ast.Return) and
-            ast.unparse(n.value) == 'deepcopy(out)']
+            isinstance(n.value, ast.Call) and
+            ast.unparse(n.value.func) == 'deepcopy']
     ctx.check('C13.N4.copy', 'Survey.to_dict(copy=True)', bool(deep) and any(
-        ast.unparse(t) == 'copy' and pol
+        ast.unparse(t) == tps[1] and pol
         for t, pol in au.guards_of(deep[0], td)),
         'to_dict(copy=True) does not deep-copy', ctx.where(sm, td))
     ctx.floor('C13.N4.select', 4)
